@@ -97,8 +97,9 @@ def validate_inputs(
     bypassed_inputs = _find_bypassed_inputs(graph, provided, inputs_spec, bound_seeds)
 
     # Step 5: Cycle entry point matching
+    prefilled_entries = _bound_cycle_entries(graph, selected, (active_nodes, active_subgraph)) if bound_seeds else {}
     if inputs_spec.entrypoints:
-        _validate_cycle_entry(graph, provided, bypassed_inputs, entrypoint, inputs_spec)
+        _validate_cycle_entry(graph, provided, bypassed_inputs, entrypoint, inputs_spec, prefilled_entries)
 
     # Step 6: Completeness check for required (acyclic) inputs
     required = set(inputs_spec.required) - bypassed_inputs
@@ -145,12 +146,39 @@ def _bound_cycle_seeds(
     return {p for params in unbound_spec.entrypoints.values() for p in params if p in graph._bound}
 
 
+def _bound_cycle_entries(
+    graph: Graph,
+    selected: tuple[str, ...] | None,
+    active_scope: tuple[dict[str, HyperNode], Any],
+) -> dict[str, tuple[str, ...]]:
+    """Entry points whose parameters are ALL pre-filled by graph.bind().
+
+    Such an entry point no longer appears in the reported spec (it needs no
+    user value), but it still bootstraps its cycle.
+    """
+    if not graph._bound:
+        return {}
+
+    from hypergraph.graph.input_spec import compute_input_spec
+
+    unbound_spec = compute_input_spec(
+        graph._nodes,
+        graph._nx_graph,
+        {},
+        entrypoints=graph._entrypoints,
+        selected=selected,
+        _active_scope=active_scope,
+    )
+    return {name: params for name, params in unbound_spec.entrypoints.items() if params and all(p in graph._bound for p in params)}
+
+
 def _validate_cycle_entry(
     graph: Graph,
     provided: set[str],
     bypassed: set[str],
     entrypoint: str | None,
     inputs_spec: InputSpec,
+    prefilled_entries: dict[str, tuple[str, ...]] | None = None,
 ) -> None:
     """Validate cycle entry points.
 
@@ -181,10 +209,20 @@ def _validate_cycle_entry(
             _check_cycle_entry(scc_entries, ep, provided, bypassed)
         return
 
-    # Implicit: group entry points by SCC and check each cycle
-    scc_groups = _group_entrypoints_by_scc(graph, ep)
+    # Implicit: group entry points by SCC and check each cycle. A cycle that no
+    # supplied entry point starts is still fine when an entry point of it is
+    # pre-filled by bind().
+    prefilled = prefilled_entries or {}
+    all_entries = {**prefilled, **ep}
+    scc_groups = _group_entrypoints_by_scc(graph, all_entries)
     for scc_entries in scc_groups.values():
-        _check_cycle_entry(scc_entries, ep, provided, bypassed)
+        listed = [name for name in scc_entries if name in ep]
+        if not listed:
+            continue
+        bootstrapped = any(name in prefilled for name in scc_entries)
+        if bootstrapped and not any(set(ep[name]) - bypassed <= provided for name in listed):
+            continue
+        _check_cycle_entry(listed, ep, provided, bypassed)
 
 
 def _group_entrypoints_by_scc(
